@@ -450,8 +450,8 @@ theorem firstPass_of_not_ok (c : Cfg) (s : St) (h : s.ok = false) : firstPass c 
   unfold firstPass; simp [h]
 
 theorem firstPass_of_ok (c : Cfg) (s : St) (h : s.ok = true) :
-    firstPass c s = if c.cblocks.any id = true then ({ s with initDone := true } : St).raise .firstPass
-      else { s with initDone := true, firstPassDone := true } := by
+    firstPass c s = if c.cblocks.any CScript.fails = true then ({ s with initDone := true } : St).raise .firstPass
+      else { s with initDone := true, firstPassDone := true, cout := c.cblocks.map CScript.value } := by
   unfold firstPass; simp [h]
 
 theorem check_of_not_ok (c : Cfg) (s : St) (h : s.ok = false) : check c s = s := by
@@ -463,12 +463,13 @@ theorem check_of_ok (c : Cfg) (s : St) (h : s.ok = true) :
 
 theorem firstPass_ok (c : Cfg) (s : St) (h : (firstPass c s).ok = true) :
     s.ok = true ∧ (firstPass c s).firstPassDone = true ∧ (firstPass c s).initDone = true ∧
-    (firstPass c s).out = s.out ∧ c.cblocks.any id = false := by
+    (firstPass c s).out = s.out ∧ c.cblocks.any CScript.fails = false ∧
+    (firstPass c s).cout = c.cblocks.map CScript.value := by
   cases hs : s.ok with
   | false => rw [firstPass_of_not_ok c s hs, hs] at h; cases h
   | true =>
     rw [firstPass_of_ok c s hs] at h ⊢
-    cases hc : c.cblocks.any id with
+    cases hc : c.cblocks.any CScript.fails with
     | true => rw [hc, if_pos rfl, raise_ok] at h; cases h
     | false => simp
 
@@ -485,7 +486,7 @@ theorem check_ok (c : Cfg) (s : St) (h : (check c s).ok = true) :
 theorem firstPass_not_ok (c : Cfg) (s : St) (h : s.ok = false) : (firstPass c s).ok = false := by
   rw [firstPass_of_not_ok c s h]; exact h
 
-theorem firstPass_raises (c : Cfg) (s : St) (h : c.cblocks.any id = true) : (firstPass c s).ok = false := by
+theorem firstPass_raises (c : Cfg) (s : St) (h : c.cblocks.any CScript.fails = true) : (firstPass c s).ok = false := by
   cases hs : s.ok with
   | false => exact firstPass_not_ok c s hs
   | true => rw [firstPass_of_ok c s hs, if_pos h]; exact raise_ok _ _
